@@ -58,7 +58,7 @@ def showFiles (fs : Files) : List String :=
 /-- `clirun <nargs> args… <adjbytes> <hasAff> <affbytes|->` → exit status and the files -/
 def opCliRun : Proto.P (List String) := do
   let n ← Proto.nat
-  let argv ← Proto.many n Proto.tok
+  let argv := (← Proto.many n Proto.tok).map fun a => if a = "\"\"" then "" else a   -- `""` stands for an empty argument
   let adj ← bytesP
   let hasAff ← Proto.bool
   let aff ← bytesP
